@@ -243,6 +243,42 @@ def place_kw(row: Dict, own, alt) -> Optional[Dict]:
     return out
 
 
+# ------------------------------------------------------------------------------------------------ (1c) state of configured software right after loading
+def load_state_cases() -> List[Tuple[str, Dict, Dict]]:
+    """A configured red application on a two-host LAN (with its target service): right after loading, every piece of software is in
+    its initial state (kill-chain stage = the class's initial member) and that state does not depend on the random generators."""
+    out = []
+    variants = [
+        ("dos-bot:repeat-false", "dos-bot", {"target_ip_address": "10.9.0.11", "target_port": "POSTGRES_SERVER", "port_scan_p_of_success": 0.5,
+                                             "repeat": False, "max_sessions": 5}),
+        ("dos-bot:repeat-true", "dos-bot", {"target_ip_address": "10.9.0.11", "target_port": "POSTGRES_SERVER", "port_scan_p_of_success": 0.5,
+                                            "repeat": True, "max_sessions": 5}),
+        ("dos-bot:target-only", "dos-bot", {"target_ip_address": "10.9.0.11", "target_port": "POSTGRES_SERVER"}),
+        ("dos-bot:unconfigured", "dos-bot", None),
+        ("data-manipulation-bot", "data-manipulation-bot", {"server_ip": "10.9.0.11", "payload": "DELETE", "port_scan_p_of_success": 0.5,
+                                                            "data_manipulation_p_of_success": 0.5}),
+        ("ransomware-script", "ransomware-script", {"server_ip": "10.9.0.11"}),
+    ]
+    for tag, typ, opts in variants:
+        for state in (None, "OFF"):
+            cfg = _base()
+            cfg["game"]["ports"] = ["POSTGRES_SERVER", "HTTP"]
+            h1, h2 = _host("h1", "computer", 10), _host("h2", "server", 11)
+            e: Dict[str, Any] = {"type": typ}
+            if opts is not None:
+                e["options"] = dict(opts)
+            h1["applications"] = [e] + ([{"type": "database-client", "options": {"db_server_ip": "10.9.0.11"}}] if typ != "dos-bot" else [])
+            if state:
+                h1["operating_state"] = state
+            h2["services"] = [{"type": "database-service"}]
+            cfg["simulation"]["network"]["nodes"] += [_switch(), h1, h2]
+            cfg["simulation"]["network"]["links"] += [
+                {"endpoint_a_hostname": "sw1", "endpoint_a_port": 1, "endpoint_b_hostname": "h1", "endpoint_b_port": 1},
+                {"endpoint_a_hostname": "sw1", "endpoint_a_port": 2, "endpoint_b_hostname": "h2", "endpoint_b_port": 1}]
+            out.append((f"load-state:{tag}:{state or 'ON'}", cfg, {"site": "load-state:" + typ, "own": tag, "dflt": state or "ON"}))
+    return out
+
+
 # ------------------------------------------------------------------------------------------------ (2) schema-driven falsy values
 def _falsy_of(annotation) -> List[Any]:
     """Falsy values of a field's declared type (Optional[...] unwrapped)."""
